@@ -140,6 +140,9 @@ func (c *FnCtx) typeAssert(st *State, v *Val, t types.Type) *Val {
 		// reference-like: same reference, new static type
 		return &Val{T: v.T, S: SInt, Typ: t}
 	}
+	if s == SNone {
+		return c.havocVal(st, t, "unbox")
+	}
 	// unboxing a scalar from an interface: uninterpreted projection
 	fn := "unbox_" + sortName(s)
 	c.decls.declFun(fn, []Sort{SInt}, s)
@@ -663,15 +666,17 @@ func (c *FnCtx) evalBinary(st *State, x *ast.BinaryExpr) *Val {
 		// short circuit: evaluate RHS under assumption a (side obligations guarded)
 		st2 := st.clone()
 		st2.assume(a.T)
+		base := len(st2.pc)
 		b := c.eval(st2, x.Y)
-		c.adoptSide(st, st2, a.T)
+		c.adoptSide(st, st2, a.T, base)
 		return &Val{T: tAnd(a.T, b.T), S: SBool, Typ: t}
 	case token.LOR:
 		a := c.eval(st, x.X)
 		st2 := st.clone()
 		st2.assume(tNot(a.T))
+		base := len(st2.pc)
 		b := c.eval(st2, x.Y)
-		c.adoptSide(st, st2, tNot(a.T))
+		c.adoptSide(st, st2, tNot(a.T), base)
 		return &Val{T: tOr(a.T, b.T), S: SBool, Typ: t}
 	}
 	a := c.eval(st, x.X)
@@ -681,8 +686,8 @@ func (c *FnCtx) evalBinary(st *State, x *ast.BinaryExpr) *Val {
 
 // adoptSide merges side effects of a short-circuit evaluation back: heap/ghost changes under cond,
 // and assumptions made in the sub-state (callee postconditions) as implications.
-func (c *FnCtx) adoptSide(st, sub *State, cond string) {
-	for _, p := range sub.pc[len(st.pc)+1:] {
+func (c *FnCtx) adoptSide(st, sub *State, cond string, base int) {
+	for _, p := range sub.pc[base:] {
 		st.assume(tImp(cond, p))
 	}
 	for k, v := range sub.heap {
@@ -720,6 +725,16 @@ func (c *FnCtx) binop(st *State, op token.Token, a, b *Val, t types.Type, at ast
 			eq = tApp("fp.eq", a.T, b.T)
 		case a.S == SReal || b.S == SReal:
 			eq = tEq(c.coerce(a, SReal).T, c.coerce(b, SReal).T)
+		case a.S == SStr && st != nil && st.litOf(a.T) != "" && st.litOf(b.T) != "":
+			if st.litOf(a.T) == st.litOf(b.T) {
+				eq = "true"
+			} else {
+				eq = "false"
+			}
+		case a.S == SStr && st != nil && isLitName(b.T) && st.knownDifferent(a.T, b.T):
+			eq = "false"
+		case a.S == SStr && st != nil && isLitName(a.T) && st.knownDifferent(b.T, a.T):
+			eq = "false"
 		default:
 			eq = tEq(a.T, b.T)
 		}
